@@ -28,7 +28,28 @@ ENC = {"none": 1, "gzip": 1 | 2, "compress": 1 | 4, "deflate": 1 | 8, "gzip+defl
 LAYERS = ("deflate", "compress", "gzip")  # encoding order, innermost first
 
 
-def _compress1(data, layer, wbits, level):
+def gzip_member(data, wbits, level, flags):
+    """a gzip member (RFC 1952) with the optional header fields selected by `flags` (FTEXT 1, FHCRC 2, FEXTRA 4,
+    FNAME 8, FCOMMENT 16), a modification time and an OS byte - what `gzip file`, GzipFile(filename=...) or a web
+    server produce, as opposed to the bare ten-byte header of zlib.compressobj"""
+    c = zlib.compressobj(level, zlib.DEFLATED, -wbits)
+    raw = c.compress(data) + c.flush()
+    hdr = bytearray(b"\x1f\x8b\x08" + bytes([flags & 0x1F]) + (0x5F5E100).to_bytes(4, "little") + b"\x02\x03")
+    if flags & 4:
+        extra = b"AP\x06\x00rtcm3\x00"
+        hdr += len(extra).to_bytes(2, "little") + extra
+    if flags & 8:
+        hdr += b"corrections.rtcm3\x00"
+    if flags & 16:
+        hdr += b"mount point TEST0 \xe9\x00"
+    if flags & 2:
+        hdr += (zlib.crc32(bytes(hdr)) & 0xFFFF).to_bytes(2, "little")
+    return bytes(hdr) + raw + (zlib.crc32(data) & 0xFFFFFFFF).to_bytes(4, "little") + (len(data) & 0xFFFFFFFF).to_bytes(4, "little")
+
+
+def _compress1(data, layer, wbits, level, gzflags=None):
+    if layer == "gzip" and gzflags is not None:
+        return gzip_member(data, wbits, level, gzflags)
     if layer == "gzip":
         c = zlib.compressobj(level, zlib.DEFLATED, wbits | 16)
     elif layer == "compress":
@@ -38,13 +59,13 @@ def _compress1(data, layer, wbits, level):
     return c.compress(data) + c.flush()
 
 
-def compress(data, enc, wbits=15, level=6):
+def compress(data, enc, wbits=15, level=6, gzflags=None):
     """per-chunk compression as a caster might do it: any window size 2^9..2^15 and any level are valid streams;
     several codings are layered innermost-first (deflate, zlib, gzip)"""
     if enc == "none":
         return data
     for layer in [l for l in LAYERS if l in enc.split("+")]:
-        data = _compress1(data, layer, wbits, level)
+        data = _compress1(data, layer, wbits, level, gzflags)
     return data
 
 
@@ -65,7 +86,7 @@ def encode(case):
     spans = []
     for i, ch in enumerate(case["chunks"]):
         core.note_input(len(ch) // 2)  # decoded size: the library has to walk what the compressed chunk expands to
-        body = compress(bytes.fromhex(ch), case["enc"], case.get("wbits", 15), case.get("level", 6))
+        body = compress(bytes.fromhex(ch), case["enc"], case.get("wbits", 15), case.get("level", 6), case.get("gzflags"))
         hx = f"{len(body):x}"
         style = case["hexcase"][i % len(case["hexcase"])]
         if style == 1:
@@ -179,6 +200,10 @@ def o_chunked(case):
         cls.add("timeouts-between-receives")
     if case.get("longdist"):
         cls.add("long-distance-back-references")
+    if case.get("decsize"):
+        cls.add("decoded-size-at-a-buffer-multiple")
+    if case.get("gzflags") is not None:
+        cls.add("gzip-member-with-optional-header-fields" if case["gzflags"] else "gzip-member-built-by-hand")
     if case.get("wirechunk", 0) >= 0x10000:
         cls.add("chunk-of-64KiB-or-more-on-the-wire")
     if len(expected) > 1024 * 1024:
@@ -279,6 +304,9 @@ def s_chunked(draw, tier):
     if enc != "none":
         case["wbits"] = draw(st.sampled_from([15, 15, 9, 10, 12, 14]))
         case["level"] = draw(st.sampled_from([6, 6, 0, 1, 9]))
+        if "gzip" in enc and draw(st.integers(0, 2)) == 0:
+            # gzip members with optional header fields (file name, extra field, comment, header CRC, text flag)
+            case["gzflags"] = draw(st.sampled_from([0, 8, 8, 4, 16, 2, 1, 8 | 2, 4 | 8 | 16, 31]))
     n = len(encode(case)[0])
     if mode == "all_1_2_cuts" and n > 120:
         case["mode"] = mode = "generated"
@@ -312,6 +340,35 @@ def e_big(tier, shard, nshards):
             for dist in (5000, 9000, 20000, 30000):
                 blk = b"".join(hashlib.blake2b(f"{dist}|{j}".encode(), digest_size=64).digest() for j in range(dist // 64 + 1))[:dist]
                 yield {"chunks": [(blk * 3).hex(), b"tail".hex()], "enc": enc, "hexcase": [0], "terminator": True, "mode": "generated", "cuts": [100, 2000], "bufsize": 4096, "gaps": [], "longdist": dist}
+
+
+def e_sizes(tier, shard, nshards):
+    """compressed chunks of highly repetitive data whose DECODED size is 3 bytes below .. 3 bytes above a multiple of
+    the default buffer size (4096 x 1, 2, 3, 4, 5, 8, 10, 16, 20, 30, 32, 64), for every single coding: a decoder that
+    inflates in steps, or bounds its output, meets every remainder and ratios far beyond 100 : 1 (complete over
+    sizes x codings x two bodies; both gzip header styles)"""
+    from pv import framing as fr
+
+    frame = fr.build_frame(b"\xfe\x80" + bytes(range(20)))
+    k = 0
+    for m in (1, 2, 3, 4, 5, 8, 10, 16, 20, 30, 32, 64):
+        for j in range(-3, 4):
+            for enc in ("gzip", "compress", "deflate"):
+                for kind in ("zeros", "frames"):
+                    k += 1
+                    if k % nshards != shard:
+                        continue
+                    size = m * 4096 + j
+                    body = bytes(size) if kind == "zeros" else (frame * (size // len(frame) + 1))[:size]
+                    case = {"chunks": [b"head".hex(), body.hex(), b"tail".hex()], "enc": enc, "hexcase": [k % 2], "terminator": True, "mode": "generated", "cuts": [7, 60, 300], "bufsize": 4096, "gaps": [], "decsize": [m, j]}
+                    if enc == "gzip" and k % 4 == 0:
+                        case["gzflags"] = 8
+                    yield case
+
+
+def e_all(tier, shard, nshards):
+    yield from e_big(tier, shard, nshards)
+    yield from e_sizes(tier, shard, nshards)
 
 
 # ------------------------------------------------------------------ well-formed chunks around one undecodable chunk
@@ -374,11 +431,11 @@ SUBS = [
         "chunked_partitions",
         o_chunked,
         strategy=s_chunked,
-        enum=e_big,
+        enum=e_all,
         examples=(150, 3000),
         exhaustive=True,
         rule="partitions enumerated completely for short streams (all compositions for n <= 15; all 1- and 2-cut partitions for n <= 120), generated beyond; non-trivial = cut inside size line / chunk data / terminating CRLF",
-        need={"cut-in-size-line": 1, "cut-in-chunk-data": 1, "cut-inside-terminating-crlf": 1, "cut-between-data-and-crlf": 1, "enc-gzip": 1, "enc-deflate": 1, "enc-compress": 1, "all_partitions": 1, "small-compression-window": 1, "layered-compression": 1, "timeouts-between-receives": 1, "chunk-decoding-to-more-than-1MiB": 1, "chunk-of-64KiB-or-more-on-the-wire": 1},
+        need={"cut-in-size-line": 1, "cut-in-chunk-data": 1, "cut-inside-terminating-crlf": 1, "cut-between-data-and-crlf": 1, "enc-gzip": 1, "enc-deflate": 1, "enc-compress": 1, "all_partitions": 1, "small-compression-window": 1, "layered-compression": 1, "timeouts-between-receives": 1, "chunk-decoding-to-more-than-1MiB": 1, "chunk-of-64KiB-or-more-on-the-wire": 1, "decoded-size-at-a-buffer-multiple": 500, "gzip-member-with-optional-header-fields": 10},
         sample=_short,
     ),
     Sub("good_chunks_around_undecodable_chunk", o_after_bad, strategy=s_after_bad, examples=(40, 1200), rule="at least one well-formed compressed chunk follows the undecodable one", need={"good-chunks-after": 1, "good-chunks-before": 1}, sample=_short),
